@@ -14,7 +14,8 @@ CASE_TIMEOUT = 1200
 REQUIRED_COUNTERS = ["usage_values_compared", "capacity_boundary_checks", "fused_mappings_compared"]
 RULE = ("(a) random concrete single-Einsum mappings with finite inner memories and storage at arbitrary depths; (b) 1-3 "
         "Einsum mappings produced by the mapper on tight architectures (shared fused loops above sequential splits, "
-        "intermediates backed in an inner memory, persistent tensors, n_instances), rebuilt from user-facing fields and "
+        "intermediates backed in an inner memory, finite backing store whose occupancy follows tensor lifetimes, persistent "
+        "tensors incl. one read by two Einsums, n_instances), rebuilt from user-facing fields and "
         "evaluated by evaluate_mapping; the reported usage x size of every finite memory is compared with a time-stepped "
         "simulation (tile instances live from first to last use; an instance below directly-indexing loops is streamed "
         "slice by slice) and with two bracketing numbers that do not depend on the streaming rule: L value-granular "
@@ -145,15 +146,18 @@ def check_single(item, counters):
 def check_fused(seed, counters):
     from .. import harness as H
     rnd = random.Random(seed)
-    wk = rnd.choice(["chain2", "mvchain2", "fanin2", "chain3", "chain2"])
+    wk = rnd.choice(["chain2", "mvchain2", "fanin2", "chain3", "chain2", "pshare2"])
     d = gs.gen_spec(rnd, wk, levels=2 if wk in ("chain3", "fanin2") else rnd.choice([2, 2, 3]),
                     size_class="tight", costs="tradeoff")
-    variant = rnd.choice(["plain", "plain", "n_instances", "persistent"])
+    variant = rnd.choice(["plain", "plain", "n_instances", "persistent"]) if wk != "pshare2" else "persistent"
     if variant == "n_instances":
         d["workload"]["einsums"][0]["n_instances"] = 2
     if variant == "persistent":
-        d["workload"]["persistent"] = rnd.choice(["Inputs - Intermediates", "All - Intermediates"])
-        d["arch"]["mems"][0]["size"] = 10 ** 7
+        d["workload"]["persistent"] = rnd.choice(["Inputs - Intermediates", "All - Intermediates"]) if wk != "pshare2" else "P"
+    if variant == "persistent" or rnd.random() < 0.5:
+        # finite backing store: its occupancy follows tensor lifetimes (first to last Einsum that uses the tensor;
+        # a persistent holder is resident throughout)
+        d["arch"]["mems"][0]["size"] = 2 ** 16 * d["workload"]["bits"]
     viol, nontriv = [], []
     try:
         res = H.run_mapper(d, "ENERGY|LATENCY|RESOURCE_USAGE")
@@ -162,6 +166,13 @@ def check_fused(seed, counters):
         return [], [], d
     except H.MapperTimeout:
         counters["mapper_watchdog(inconclusive)"] = counters.get("mapper_watchdog(inconclusive)", 0) + 1
+        return [], [], d
+    except (AssertionError, AttributeError, KeyError, IndexError, TypeError) as ex:
+        import traceback
+        if not any("/accelforge/" in f.filename for f in traceback.extract_tb(ex.__traceback__)):
+            raise
+        k = "mapper_internal_error(judged by C03):" + type(ex).__name__
+        counters[k] = counters.get(k, 0) + 1
         return [], [], d
     rows = H.result_rows(res)
     rnd.shuffle(rows)
@@ -173,8 +184,6 @@ def check_fused(seed, counters):
             continue
         usage = {k: float(v) for k, v in ev.resource_usage().items()}
         v = []
-        if variant == "persistent":
-            usage = {k: u for k, u in usage.items() if k != "MainMemory"}   # persistent backing store: judged separately below
         compare(d, r["tree"], usage, counters, v, True)
         counters["fused_mappings_compared"] = counters.get("fused_mappings_compared", 0) + 1
         if not v and variant == "plain":
